@@ -1,5 +1,5 @@
 #!/bin/sh
-# Regenerates the four C04 threshold tables (thr_<tier>_<part>.h, included by thresholds.h) on the UNCHANGED tree.
+# Regenerates the eight C04 threshold tables (thr_<tier>_<part>.h, included by thresholds.h) on the UNCHANGED tree.
 # The numbers are deterministic (no clock, no rand, fixed signal seeds), so the machine load does not matter.
 #   usage: props/C04/calibrate.sh [quick|thorough|both]     (VERIF_REPO must be unset or /repo)
 set -e
@@ -15,7 +15,7 @@ PY
 out=/tmp/C04-calib; mkdir -p $out
 for tier in quick thorough; do
   [ "$which" = both ] || [ "$which" = "$tier" ] || continue
-  for part in ss ms; do
+  for part in ss ms hist mshist; do
     build/bin/C04-$part-prod --tier $tier --mode $part --out $out --calibrate "$PWD/props/C04/thr_${tier}_${part}.h" | grep -E '^@(INFO|STAT (evaluations|failures|exhaustive)|FAIL|CAP)'
   done
 done
